@@ -371,5 +371,10 @@ def rules(rep, facts):
     r4_cr(rep, facts)
 
 
+def _witnesses(rep):
+    from .witness import report
+    report(rep, 'C03/R5', 'type level (compile-fail witnesses): a parsed document is immutable, spans cannot be forged or written from outside', ['w01_imdocument_is_immutable', 'w02_rawstring_span_is_private', 'w07_table_span_is_private'])
+
+
 def run(tier):
-    return run_property(PROP, tier, rules, configs_thorough=['default', 'perf', 'preserve_order', 'unbounded'])
+    return run_property(PROP, tier, rules, configs_thorough=['default', 'perf', 'preserve_order', 'unbounded'], extra=_witnesses if tier == 'thorough' else None)
